@@ -507,6 +507,16 @@ func (pg *patchGen) genOp0(cur interface{}) string {
 				pg.parents = append(pg.parents, p[:i])
 			}
 		}
+		if kind == "add" && p != "" && !strings.HasSuffix(p, "/-") && chance(0.04) {
+			// a null is stored, duplicated, and both are looked at
+			if i := strings.LastIndex(p, "/"); i >= 0 {
+				dup := p[:i] + "/" + escTok(pick("dup", "n2", "zz"))
+				pg.pending = append(pg.pending,
+					fmt.Sprintf(`{"op":"copy","from":%s,"path":%s}`, jsonStr(p), jsonStr(dup)),
+					fmt.Sprintf(`{"op":"test","path":%s,"value":null}`, jsonStr(pick(dup, dup, p))))
+				return fmt.Sprintf(`{"op":"add","path":%s,"value":null}`, jsonStr(p))
+			}
+		}
 		if p == "" && chance(0.8) {
 			// root replacement: mostly containers
 			return fmt.Sprintf(`{"op":%s,"path":"","value":%s}`, jsonStr(kind), pick(genObject(vg, 2), genArray(vg, 2), genObject(vg, 1)))
@@ -522,6 +532,24 @@ func (pg *patchGen) genOp0(cur interface{}) string {
 		}
 		if kind == "copy" && chance(0.05) {
 			from = ""
+		}
+		if chance(0.2) {
+			// prefer a source that holds null
+			var locs []loc
+			locations(cur, "", nil, &locs)
+			var nulls []string
+			for _, l := range locs {
+				if l.val == nil && l.ptr != "" {
+					nulls = append(nulls, l.ptr)
+				}
+			}
+			if len(nulls) > 0 {
+				from = nulls[rng.Intn(len(nulls))]
+			}
+		}
+		if v, ok := lookup(cur, from); ok && !strings.HasSuffix(to, "/-") && chance(0.4) {
+			// then look at what arrived: it must compare equal to what was there (null included)
+			pg.pending = append(pg.pending, fmt.Sprintf(`{"op":"test","path":%s,"value":%s}`, jsonStr(to), respell(v, g)))
 		}
 		return fmt.Sprintf(`{"op":%s,"from":%s,"path":%s}`, jsonStr(kind), jsonStr(from), jsonStr(to))
 	default: // test
